@@ -410,6 +410,13 @@ func (x *gen) usesNode(ref string, gr *sg.Grouping, feats []string, allMods []*s
 			a.When = "../k = 'aug'"
 			a.Kids[0].When = ""
 		}
+		// if-feature and status of the augment go to every node it adds, the nodes of a uses written in it included
+		if len(feats) > 0 && g.Chance(1, 3, "uaugiff") {
+			a.IfFeatures = []string{feats[g.Pick(len(feats), "uaugfeat")]}
+		}
+		if g.Chance(1, 4, "uaugstatus") {
+			a.Status = "deprecated"
+		}
 		u.Augments = append(u.Augments, a)
 	}
 	topHasWhen, topHasStatus := false, false
